@@ -292,7 +292,7 @@ class CharLiteral(ExpressionToken):
 
         try:
             bytes_value = self.string.encode(state["compiler"].output_charset)
-        except UnicodeEncodeError as ex:
+        except UnicodeError as ex:
             reports.error(
                 "invalid-character",
                 (self.ctx_start, self.ctx_end, f"Cannot encode this literal using the selected output charset:\n{ex}\nYou can change the charset using --charset CLI argument or '.charset' directive.")
